@@ -111,7 +111,7 @@ func H12_host() {
 	var host interface{}
 	f := 1.5
 	var nilS *c12Ptrs
-	switch sv.Choice("host", 12) {
+	switch sv.Choice("host", 16) {
 	case 0:
 		host = nil
 	case 1:
@@ -135,6 +135,16 @@ func H12_host() {
 	case 10:
 		pp := &f
 		host = map[string]interface{}{"p": &pp, "L": [2]int{1, 2}}
+	case 11:
+		host = &nilS // pointer to a nil pointer
+	case 12:
+		var nm map[string]interface{}
+		host = &nm // pointer to a nil map
+	case 13:
+		var ni interface{}
+		host = &ni // pointer to a nil interface
+	case 14:
+		host = map[string]interface{}{"p": &nilS}
 	default:
 		host = "a string"
 	}
